@@ -239,9 +239,9 @@ def rule_early(ck):
 
 def rule_simulator(ck):
     repo = ck.repo
-    pe = repo.fn("Simulator._process_event")
+    from .c01 import dispatch_branches, process_event_by_type
+    pe, _split = process_event_by_type(repo)
     fl = flow_of(pe)
-    from .c01 import dispatch_branches
     br = dispatch_branches(fl, pe.params[1])
     if "Unplug" not in br:
         raise AnalysisError("_process_event: Unplug branch not found")
@@ -310,7 +310,7 @@ def rule_empty_station(ck, rid="C19.R9"):
     for q in ("StochasticNetwork.unplug", "StochasticNetwork.post_charging_update", "StochasticNetwork.plugin", "StochasticNetwork.available_evses"):
         f = repo.fn(q)
         n += check_optional_attr(ck, rid, f, flow_of(f), attr="ev", deref_only=True)
-    ck.floor(rid, n, 2, "dereferences of a station's occupant in the stochastic network")
+    ck.floor(rid, n, 1, "dereferences of a station's occupant in the stochastic network")
 
 
 def run(ck):
